@@ -362,7 +362,9 @@ INT_CELLS = ["0", "7", "12", "-12", "+12", " 12", "12 ", "\t12\n", "0012", "-007
 INT_LENGTHS = ["", "1", "2", "3", "5", "1...3", "2...3", "2...", "...3", "0...1", "1...", "0...", "4...5", "...2, 4...", "1, 3", "1...2, 5",
                "5, 1...", "3, ...1", "2, 4...5", "0", "0...0", "-1...2", "3...2", "x"]
 INT_RULES = ["", "0...9", "-5...5", "1...", "...-1", "10...99, 200", "0x10...0x20", "-100...-10, 10...100", "5", "1...2...3", "a...b", "1:3",
-             "1…3", "'a'...'z'", "-2147483648...2147483647", "12345"]
+             "1…3", "'a'...'z'", "-2147483648...2147483647", "12345",
+             # limits that are exactly 0 (a limit of 0 is a limit), on either side and in the middle of several items
+             "-10...0", "0...0", "0", "0...", "...0", "-99...-50, -10...0, 20...30", "0...0, 5"]
 
 
 def base(ftype, fmt="delimited", length="", rule="", cells=(), empty=False, dsep=".", tsep=",", **kw):
